@@ -226,7 +226,10 @@ class KVApp(object):
         def cb(res, err):
             w = CTX.world
             if w is not None and not w.hosts[idx].doomed:
-                w.step_callbacks.append((tag, res, err, idx))
+                n = w.hosts[idx].node
+                # a SUCCESS/DISCARDED callback runs inside the apply loop, before raftLastApplied is
+                # advanced: the position being applied is raftLastApplied + 1
+                w.step_callbacks.append((tag, res, err, idx, (n.raftLastApplied + 1) if n is not None else None))
         if world.oracle is not None:
             world.oracle.on_submit(tag, host, meth)
         try:
